@@ -647,6 +647,16 @@ func scenarios() []Scenario {
 		r.Script = "vars {\n  account $x\n}\n" + send(100, "$x", "@bob")
 		r.Vars = map[string]string{"x": "alice"}
 	})
+	// a fee from @world first, then the whole of alice's balance
+	worldFirst := func(dst string) engx.Req {
+		return engx.Req{Kind: "create", Script: send(1, "@world", "@fees") + send(100, "@alice", "@"+dst),
+			ModelPostings: []engx.PostingReq{{Source: "world", Destination: "fees", Asset: "USD", Amount: 1}, {Source: "alice", Destination: dst, Asset: "USD", Amount: 100}}}
+	}
+	// both halves of the amount from accounts named only inside an allotment source
+	allotSrc := func(dst string) engx.Req {
+		return engx.Req{Kind: "create", Script: fmt.Sprintf("send [USD 100] (\n  source = {\n    50%% from @alice\n    50%% from @dave\n  }\n  destination = @%s\n)\n", dst),
+			ModelPostings: []engx.PostingReq{{Source: "alice", Destination: dst, Asset: "USD", Amount: 50}, {Source: "dave", Destination: dst, Asset: "USD", Amount: 50}}}
+	}
 	ref := func(r engx.Req, x string) engx.Req { r.Reference = x; return r }
 	ik := func(r engx.Req, x string) engx.Req { r.IK = x; return r }
 	dry := func(r engx.Req) engx.Req { r.DryRun = true; return r }
@@ -726,6 +736,19 @@ func scenarios() []Scenario {
 				{"start(0)", "resume(0)*", "start(1)", "resume(1)*", "cancel(1)", "resume(1)", "start(2)", "resume(2)*", "persist_ok(-1)", "resume(0)*", "resume(2)*", "persist_ok(-1)", "resume(2)*"},
 				{"start(0)", "resume(0)*", "start(1)", "resume(1)*", "start(2)", "resume(2)*", "cancel(1)", "resume(1)", "persist_ok(-1)", "resume(0)*"},
 			}},
+		// the first attempt is cancelled while its entry waits in the batcher; the retry with the same key arrives before
+		// anything is persisted (an unchanged engine keeps the key reserved until the entry is on disk)
+		{Name: "cancel-at-wait-then-retry-same-key", Setup: []engx.Req{fund("alice", 100)}, Cancel: true, Budget: 160, Reqs: []engx.Req{
+			ik(xfer(30, "alice", "carol"), "k14"), ik(xfer(30, "alice", "carol"), "k14")},
+			Directed: [][]string{
+				{"start(0)", "resume(0)*", "cancel(0)", "start(1)", "resume(1)*", "persist_ok(-1)", "resume(0)*", "resume(1)*", "persist_ok(-1)", "resume(1)*"},
+				{"start(0)", "resume(0)*", "cancel(0)", "resume(0)*", "start(1)", "resume(1)*", "persist_ok(-1)", "resume(1)*", "persist_ok(-1)", "resume(1)*"},
+			}},
+		{Name: "cancel-at-wait-then-retry-same-reference", Setup: []engx.Req{fund("alice", 100)}, Cancel: true, Budget: 160, Reqs: []engx.Req{
+			ref(xfer(30, "alice", "carol"), "r14"), ref(xfer(30, "alice", "carol"), "r14")},
+			Directed: [][]string{
+				{"start(0)", "resume(0)*", "cancel(0)", "start(1)", "resume(1)*", "persist_ok(-1)", "resume(0)*", "resume(1)*", "persist_ok(-1)", "resume(1)*"},
+			}},
 		{Name: "cancel-queued-revert", Setup: []engx.Req{fund("alice", 100), xfer(40, "alice", "bob")}, Cancel: true, Budget: 160, Reqs: []engx.Req{
 			xfer(10, "bob", "carol"), ik(engx.Req{Kind: "revert", RevertID: 1}, "k13"), {Kind: "revert", RevertID: 1}},
 			Directed: [][]string{
@@ -744,6 +767,12 @@ func scenarios() []Scenario {
 			ik(xfer(10, "alice", "bob"), "k30"), dry(ik(xfer(10, "carol", "dave"), "k30")), ik(xfer(10, "alice", "bob"), "k30")}},
 		{Name: "preview-revert-between-reverts", Setup: []engx.Req{fund("alice", 100), xfer(40, "alice", "bob")}, Budget: 400, Reqs: []engx.Req{
 			{Kind: "revert", RevertID: 1}, dry(engx.Req{Kind: "revert", RevertID: 1}), {Kind: "revert", RevertID: 1}}},
+		// scripts in which @world is used as a source BEFORE the contended account (lock lists are built in resource order)
+		{Name: "double-spend-after-world-source", Setup: []engx.Req{fund("alice", 100)}, Reqs: []engx.Req{worldFirst("bob"), worldFirst("carol")}},
+		{Name: "double-spend-allotment-source", Setup: []engx.Req{fund("alice", 50), fund("dave", 50)}, Reqs: []engx.Req{allotSrc("bob"), allotSrc("carol")}},
+		// references that are not "clean" text, retried one after the other and after a restart
+		{Name: "reference-with-blanks-retry", Setup: []engx.Req{fund("alice", 300), ref(xfer(10, "alice", "bob"), " r40 "), ref(xfer(10, "alice", "bob"), "R41\t")},
+			Reqs: []engx.Req{ref(xfer(10, "alice", "bob"), " r40 "), ref(xfer(10, "alice", "bob"), "R41\t"), ref(xfer(10, "alice", "bob"), "r40")}},
 		// three spenders of one balance: one holds the locks, two queue behind it (a release must grant them one by one)
 		{Name: "three-spenders", Setup: []engx.Req{fund("alice", 100)}, Budget: 400, Reqs: []engx.Req{
 			xfer(100, "alice", "bob"), xfer(100, "alice", "carol"), xfer(100, "alice", "dave")},
